@@ -28,8 +28,14 @@ VIA = {
 }
 
 
+# change -> seed, where the trigger is rare and seed 0 of the current module
+# does not draw it (the other seeds listed in meta.json do).
+SEED = {'C12-m1': 1, 'C14-m1': 1}
+
+
 def one(name, seed):
   prop = VIA.get(name, name.split('-')[0])
+  seed = SEED.get(name, seed)
   t0 = time.time()
   r = subprocess.run(
       ['/venv/bin/python', os.path.join(ROOT, 'tools', 'seeded_eval.py'),
